@@ -261,7 +261,11 @@ finish:
   child.err = redirect_destroy(child.err, options.redirect.err.type);
 #endif
 
-  pipe_destroy(child.exit);
+  if (r != 0) {
+    // In the forked child (`r == 0`) the exit pipe has to stay open until the
+    // child exits so the parent can detect when that happens.
+    pipe_destroy(child.exit);
+  }
 
   if (r < 0) {
     process->handle = process_destroy(process->handle);
